@@ -1,5 +1,8 @@
 import BreezyVerif.Model.C09
 import BreezyVerif.Lemmas.C10
+import BreezyVerif.Lemmas.C09
+import BreezyVerif.Lemmas.C09Git
+import BreezyVerif.Lemmas.C09Path
 /-!
 C09 — theorems about the working-tree step machine.  All states, all
 operations, all operation lists (no bound).
@@ -111,101 +114,283 @@ example : (status (run .bzr init [.mkdir ["a"], .commit, .mkfile ["a", "f"] "78"
 
 /-! ### revert -/
 
-theorem get_foldr_set (b d : Tree) (i : Id) :
-    get (b.foldr (fun x d => C10.set d x.1 x.2) d) i =
-      match get b i with
-      | some e => some e
-      | none => get d i := by
-  induction b with
-  | nil => simp [C10.get]
-  | cons x rest ih =>
-    obtain ⟨k, e⟩ := x
-    simp only [List.foldr_cons, get_set, C10.get]
-    by_cases hk : k = i
-    · simp [hk]
-    · simp [hk, ih]
-
-theorem get_map_keep (t : Tree) (f : Id × Entry → Id × Entry) (i : Id)
-    (hkey : ∀ x, (f x).1 = x.1) (hfix : ∀ x, x.1 = i → f x = x) : get (t.map f) i = get t i := by
-  induction t with
-  | nil => rfl
-  | cons x rest ih =>
-    obtain ⟨k, e⟩ := x
-    simp only [List.map_cons]
-    by_cases hk : k = i
-    · have := hfix (k, e) hk
-      rw [this]; simp [C10.get, hk]
-    · have h1 := hkey (k, e)
-      have : get (f (k, e) :: List.map f rest) i = get (List.map f rest) i := by
-        have hne : ¬ (f (k, e)).1 = i := by rw [h1]; exact hk
-        cases hfe : f (k, e) with
-        | mk a b => rw [hfe] at hne; simp [C10.get, hne]
-      rw [this, ih]; simp [C10.get, hk]
-
-theorem get_filter_keys (t : Tree) (p : Id → Bool) (i : Id) :
-    get (t.filter fun x => p x.1) i = if p i then get t i else none := by
-  induction t with
-  | nil => simp [C10.get]
-  | cons x rest ih =>
-    obtain ⟨k, e⟩ := x
-    by_cases hp : p k = true
-    · simp only [List.filter_cons, hp, if_true, C10.get]
-      by_cases hk : k = i
-      · subst hk; simp [hp]
-      · simp [hk, ih]
-    · simp only [List.filter_cons, hp, Bool.false_eq_true, if_false, C10.get, ih]
-      by_cases hk : k = i
-      · subst hk; simp [hp]
-      · simp [hk]
-
 /-- **revert restores the versioned part**: every id of the basis is versioned
 again with exactly its basis entry (position, kind, content, executable bit),
-in every state, for both flavours. -/
-theorem revert_restores (fl : Flavour) (s : State) (i : Id) (hi : i ∈ ids s.basis) :
-    get (wtTree (revert fl s)) i = get s.basis i := by
-  have hsome := get_isSome_of_mem hi
-  cases hb : get s.basis i with
-  | none => rw [hb] at hsome; cases hsome
-  | some e =>
-    unfold wtTree revert
-    simp only
-    rw [get_filter_keys _ (fun k => (unionNew (ids s.basis) [rootId]).contains k)]
-    have hv : (unionNew (ids s.basis) [rootId]).contains i = true := by
-      simp only [List.contains_eq_mem, decide_eq_true_eq]
-      unfold unionNew
-      simp only [List.foldl_cons, List.foldl_nil, insertNew]
-      split
-      · exact hi
-      · simp [hi]
-    simp only [hv, if_true]
-    rw [get_map_keep]
-    · rw [get_foldr_set, hb]
-    · intro x; split <;> rfl
-    · intro x hx
-      split
-      · rename_i hc
-        rw [hx, hb] at hc; simp at hc
-      · rfl
+in every state, for both flavours, with and without backups. -/
+theorem revert_restores (fl : Flavour) (b : Bool) (s : State) (i : Id) (hi : i ∈ ids s.basis) :
+    get (wtTree (revert fl b s)) i = get s.basis i := by
+  rw [get_wtTree]
+  have hv : (revert fl b s).ver.contains i = true := by
+    simp only [List.contains_eq_mem, decide_eq_true_eq]
+    exact mem_revert_ver.mpr (Or.inl hi)
+  simp only [hv, if_true]
+  exact revert_disk_get fl b s i hi
 
 /-- … and nothing else is versioned after revert (apart from the root) -/
-theorem revert_only_basis (fl : Flavour) (s : State) (i : Id) (hi : i ∉ ids s.basis) (hr : i ≠ rootId) :
-    get (wtTree (revert fl s)) i = none := by
-  unfold wtTree revert
-  simp only
-  rw [get_filter_keys _ (fun k => (unionNew (ids s.basis) [rootId]).contains k)]
-  have hv : (unionNew (ids s.basis) [rootId]).contains i = false := by
+theorem revert_only_basis (fl : Flavour) (b : Bool) (s : State) (i : Id) (hi : i ∉ ids s.basis) (hr : i ≠ rootId) :
+    get (wtTree (revert fl b s)) i = none := by
+  rw [get_wtTree]
+  have hv : (revert fl b s).ver.contains i = false := by
     simp only [List.contains_eq_mem, decide_eq_false_iff_not]
-    unfold unionNew
-    simp only [List.foldl_cons, List.foldl_nil, insertNew]
-    split
-    · exact hi
-    · simp [hi, hr]
-  show (if (unionNew (ids s.basis) [rootId]).contains i = true then _ else none) = none
+    intro h
+    rcases mem_revert_ver.mp h with h | h
+    · exact hi h
+    · exact hr h
   rw [hv]; rfl
+
+/-- **backups do not change what is restored**: the versioned part after
+`revert(backups=True)` is entry for entry (position, kind, content, executable
+bit) the versioned part after `revert(backups=False)` — the backup copies are
+extra unversioned objects only.  (The root is covered as soon as it is part of
+the basis, i.e. after the first commit.) -/
+theorem revert_backups_same_versioned (fl : Flavour) (s : State) (i : Id)
+    (hr : i ≠ rootId ∨ rootId ∈ ids s.basis) :
+    get (wtTree (revert fl true s)) i = get (wtTree (revert fl false s)) i := by
+  by_cases hi : i ∈ ids s.basis
+  · rw [revert_restores fl true s i hi, revert_restores fl false s i hi]
+  · have hne : i ≠ rootId := by
+      rcases hr with h | h
+      · exact h
+      · exact fun he => hi (he ▸ h)
+    rw [revert_only_basis fl true s i hi hne, revert_only_basis fl false s i hi hne]
+
+/-- non-vacuity: a state where the two reverts differ on disk (a backup is made) but not in
+what is versioned -/
+example :
+    let s := run .bzr init [.mkfile ["f"] "78", .add ["f"], .commit, .write ["f"] "79", .chmod ["f"] true]
+    ((listing (revert .bzr true s).disk).length, (listing (revert .bzr false s).disk).length,
+      decide (listing (wtTree (revert .bzr true s)) = listing (wtTree (revert .bzr false s)))) = (3, 2, true) := by
+  decide +kernel
 
 /-- non-vacuity: a revert that has something to restore (a removed file comes back) -/
 example :
     let s := run .bzr init [.mkfile ["f"] "78", .add ["f"], .commit, .remove ["f"] true]
-    ((listing (wtTree s)).length, (listing (wtTree (step .bzr s .revert).1)).length) = (1, 2) := by decide +kernel
+    ((listing (wtTree s)).length, (listing (wtTree (step .bzr s (.revert false)).1)).length) = (1, 2) := by decide +kernel
+
+/-! #### the same for the operation `revert` of the step machine (`step`, i.e. including
+git's pruning of directories without versioned files) -/
+
+/-- the `revert` step never fails -/
+theorem step_revert_ok (fl : Flavour) (b : Bool) (s : State) :
+    step fl s (.revert b) = (finish fl (revert fl b s), .ok) := by
+  simp [step, stepOk]
+
+/-- the `revert` step leaves the basis alone -/
+theorem step_revert_basis (fl : Flavour) (b : Bool) (s : State) : (step fl s (.revert b)).1.basis = s.basis := by
+  rw [step_revert_ok]
+  cases fl <;> rfl
+
+/-- after the `revert` step nothing outside the basis is versioned (apart from the
+root), both flavours -/
+theorem step_revert_only_basis (fl : Flavour) (b : Bool) (s : State) (i : Id)
+    (hi : i ∉ ids s.basis) (hr : i ≠ rootId) :
+    get (wtTree (step fl s (.revert b)).1) i = none := by
+  rw [step_revert_ok, get_wtTree]
+  have hv : (finish fl (revert fl b s)).ver.contains i = false := by
+    simp only [List.contains_eq_mem, decide_eq_false_iff_not]
+    intro h
+    rcases mem_revert_ver.mp (finish_ver_subset fl _ i h) with h | h
+    · exact hi h
+    · exact hr h
+  rw [hv]; rfl
+
+/-- bzr: after the `revert` step every id of the basis is versioned with exactly
+its basis entry (position, kind, content, executable bit) -/
+theorem step_revert_restores_bzr (b : Bool) (s : State) (i : Id) (hi : i ∈ ids s.basis) :
+    get (wtTree (step .bzr s (.revert b)).1) i = get s.basis i := by
+  rw [step_revert_ok]
+  exact revert_restores .bzr b s i hi
+
+/-- git: after the `revert` step every file and symbolic link of the basis is
+versioned with exactly its basis entry (position, content, executable bit) —
+the pruning of directories never touches them -/
+theorem step_revert_restores_git_nondir (b : Bool) (s : State) (i : Id) (e : Entry)
+    (he : get s.basis i = some e) (hk : e.node.kind ≠ .dir) :
+    get (wtTree (step .git s (.revert b)).1) i = get s.basis i := by
+  have hi : i ∈ ids s.basis := mem_ids_of_get he
+  rw [step_revert_ok, get_wtTree]
+  have hd : get (revert .git b s).disk i = some e := by rw [revert_disk_get .git b s i hi, he]
+  have hv : (finish .git (revert .git b s)).ver.contains i = true := by
+    simp only [List.contains_eq_mem, decide_eq_true_eq, finish, pruneGit, List.mem_filter]
+    refine ⟨mem_revert_ver.mpr (Or.inl hi), ?_⟩
+    have : isDir (revert .git b s).disk i = false := by
+      simp only [isDir, hd]
+      simpa using hk
+    simp [this]
+  simp only [hv, if_true, finish_disk]
+  rw [hd, he]
+
+/-- git: a directory of the basis is versioned again with its basis entry as soon
+as the pruning keeps it -/
+theorem step_revert_restores_git_kept (b : Bool) (s : State) (i : Id) (hi : i ∈ ids s.basis)
+    (hkeep : i ∈ (pruneGit (revert .git b s)).ver) :
+    get (wtTree (step .git s (.revert b)).1) i = get s.basis i := by
+  rw [step_revert_ok, get_wtTree]
+  have hv : (finish .git (revert .git b s)).ver.contains i = true := by
+    simpa [finish] using hkeep
+  simp only [hv, if_true, finish_disk]
+  exact revert_disk_get .git b s i hi
+
+/-- **revert ⇒ empty status** (bzr), whenever the basis has the root entry (i.e.
+after the first commit), with and without backups -/
+theorem step_revert_status_empty_bzr (b : Bool) (s : State) (hroot : rootId ∈ ids s.basis) :
+    status (step .bzr s (.revert b)).1 = [] := by
+  unfold status
+  apply changesOf_eq_nil
+  intro i
+  rw [step_revert_basis]
+  by_cases hi : i ∈ ids s.basis
+  · rw [step_revert_restores_bzr b s i hi]
+  · have hr : i ≠ rootId := fun h => hi (h ▸ hroot)
+    rw [step_revert_only_basis .bzr b s i hi hr]
+    exact get_none_of_not_mem hi
+
+/-- **revert ⇒ empty status** (git), when the basis has the root entry and the
+pruning keeps every directory of the basis (`gitKeeps`: see `gitKeeps_of_closed`
+for a condition on the basis alone) -/
+theorem step_revert_status_empty_git (b : Bool) (s : State) (hroot : rootId ∈ ids s.basis)
+    (hkeep : ∀ i ∈ ids s.basis, i ∈ (pruneGit (revert .git b s)).ver) :
+    status (step .git s (.revert b)).1 = [] := by
+  unfold status
+  apply changesOf_eq_nil
+  intro i
+  rw [step_revert_basis]
+  by_cases hi : i ∈ ids s.basis
+  · rw [step_revert_restores_git_kept b s i hi (hkeep i hi)]
+  · have hr : i ≠ rootId := fun h => hi (h ▸ hroot)
+    rw [step_revert_only_basis .git b s i hi hr]
+    exact get_none_of_not_mem hi
+
+/-- git: after the `revert` step EVERY entry of a git-representable basis (unique
+ids; every directory has a file or link of the basis below it) is versioned
+with exactly its basis entry -/
+theorem step_revert_restores_git (b : Bool) (s : State) (i : Id) (hi : i ∈ ids s.basis)
+    (hn : (ids s.basis).Nodup) (hc : gitClosed s.basis = true) :
+    get (wtTree (step .git s (.revert b)).1) i = get s.basis i :=
+  step_revert_restores_git_kept b s i hi (gitKeeps_of_closed b s hn hc i hi)
+
+/-- **revert ⇒ empty status** (git), for every git-representable basis with a root -/
+theorem step_revert_status_empty_git_closed (b : Bool) (s : State) (hroot : rootId ∈ ids s.basis)
+    (hn : (ids s.basis).Nodup) (hc : gitClosed s.basis = true) :
+    status (step .git s (.revert b)).1 = [] :=
+  step_revert_status_empty_git b s hroot (gitKeeps_of_closed b s hn hc)
+
+/-- non-vacuity: a basis made by a git commit (with a directory that is only kept because of
+the file below it) satisfies the hypotheses; revert has a rename and an edit to undo -/
+example :
+    let s := run .git init [.mkdir ["d"], .mkfile ["d", "f"] "78", .add ["d", "f"], .commit, .mkdir ["e"],
+      .rename ["d", "f"] ["e", "g"], .write ["e", "g"] "79"]
+    (decide (rootId ∈ ids s.basis), decide (ids s.basis).Nodup, gitClosed s.basis, s.basis.length,
+      (pathStatus s).length, (pathStatus (step .git s (.revert true)).1).length) = (true, true, true, 3, 4, 0) := by
+  decide +kernel
+
+/-- non-vacuity: states with a committed root in which revert has work to do (content and
+mode edited; backups on) -/
+example :
+    let s := run .bzr init [.mkfile ["f"] "78", .add ["f"], .commit, .write ["f"] "79", .chmod ["f"] true]
+    (decide (rootId ∈ ids s.basis), (status s).length, (status (step .bzr s (.revert true)).1).length) = (true, 1, 0) := by
+  decide +kernel
+
+example :
+    let s := run .git init [.mkdir ["d"], .mkfile ["d", "f"] "78", .add ["d", "f"], .commit, .write ["d", "f"] "79",
+      .chmod ["d", "f"] true]
+    (decide (rootId ∈ ids s.basis), decide (∀ i ∈ ids s.basis, i ∈ (pruneGit (revert .git true s)).ver),
+      (pathStatus s).length, (status (step .git s (.revert true)).1).length) = (true, true, 1, 0) := by
+  decide +kernel
+
+/-- the backup keeps what the edited file held: content AND executable bit, under the
+name `f.~1~`, unversioned, while the versioned file has the basis content and bit again -/
+example :
+    let s := run .bzr init [.mkfile ["f"] "78", .add ["f"], .commit, .write ["f"] "79", .chmod ["f"] true]
+    (listing (step .bzr s (.revert true)).1.disk, listing (wtTree (step .bzr s (.revert true)).1)) =
+      ([([], .dir), (["f"], .file "78" false), (["f.~1~"], .file "79" true)],
+       [([], .dir), (["f"], .file "78" false)]) := by
+  decide +kernel
+
+/-! ### revert of one file -/
+
+/-- **selective revert restores exactly that entry**: when `revert([p], backups=False)`
+succeeds on an object that is the basis entry `i` at `p` (always the case for bzr; git:
+unless the path was re-populated), afterwards `i` sits where it was with the
+content / target / executable bit of the basis, every other object on disk is
+untouched, the same ids are versioned and the basis is unchanged. -/
+theorem revertPath_restores_entry (fl : Flavour) (s s' : State) (p : Path) (i : Id)
+    (hb : idAt s.basis p = some i) (hd : idAt s.disk p = some i)
+    (h : revertPath fl s p false = some s') :
+    ∃ be de, get s.basis i = some be ∧ get s.disk i = some de ∧
+      get s'.disk i = some { de with node := be.node } ∧
+      (∀ k, k ≠ i → get s'.disk k = get s.disk k) ∧ (∀ k, k ∈ s'.ver ↔ k ∈ s.ver) ∧ s'.basis = s.basis := by
+  unfold revertPath at h
+  rw [hb, hd] at h
+  simp only at h
+  cases hbe : get s.basis i with
+  | none => rw [hbe] at h; cases h
+  | some be =>
+    cases hde : get s.disk i with
+    | none => rw [hbe, hde] at h; cases h
+    | some de =>
+      rw [hbe, hde] at h
+      simp only at h
+      split at h
+      · simp only [beq_self_eq_true, if_true, Bool.false_and, Bool.false_eq_true, if_false, renameIds_nil,
+          Option.some.injEq] at h
+        subst h
+        refine ⟨be, de, rfl, rfl, ?_, ?_, ?_, rfl⟩
+        · simp only [get_setNode, if_true, hde, Option.map_some]
+        · intro k hk
+          simp only [get_setNode, hk, if_false]
+        · intro k
+          exact mem_substVer_nil s.ver k
+      · cases h
+
+/-- non-vacuity: a selective revert inside the envelope, undoing a content and a mode edit
+while another edited file stays as it is -/
+example :
+    let s := run .bzr init [.mkfile ["f"] "78", .mkfile ["g"] "78", .add ["f"], .add ["g"], .commit, .write ["f"] "79",
+      .chmod ["f"] true, .write ["g"] "7a"]
+    (idAt s.basis ["f"], idAt s.disk ["f"], (revertPath .bzr s ["f"] false).map fun s' => listing (wtTree s')) =
+      (some "n0", some "n0", some [([], .dir), (["f"], .file "78" false), (["g"], .file "7a" false)]) := by
+  decide +kernel
+
+/-! ### status in path space (the git comparison) -/
+
+/-- **path-space status is complete**: a path whose entry (kind, content, executable
+bit; absent counts as different from present) differs between the basis and the
+working tree is named by a record -/
+theorem pathStatus_complete (s : State) (p : Path)
+    (h : lookup (listing s.basis) p ≠ lookup (listing (wtTree s)) p) : ∃ c ∈ pathStatus s, c.path = p := by
+  rw [pathStatus_eq]
+  exact pstat_complete _ _ p h
+
+/-- **path-space status is sound**: every record names a path whose entries differ
+(for a basis that lists no path twice — any well-formed tree) -/
+theorem pathStatus_sound (s : State) (hn : ((listing s.basis).map (·.1)).Nodup) (c : PathChange)
+    (hc : c ∈ pathStatus s) : lookup (listing s.basis) c.path ≠ lookup (listing (wtTree s)) c.path := by
+  rw [pathStatus_eq] at hc
+  exact pstat_sound _ _ hn c hc
+
+/-- the path-space status is empty exactly when the two listings agree at every path -/
+theorem pathStatus_nil_iff (s : State) (hn : ((listing s.basis).map (·.1)).Nodup) :
+    pathStatus s = [] ↔ ∀ p, lookup (listing s.basis) p = lookup (listing (wtTree s)) p := by
+  constructor
+  · intro h p
+    by_cases hp : lookup (listing s.basis) p = lookup (listing (wtTree s)) p
+    · exact hp
+    · obtain ⟨c, hc, _⟩ := pathStatus_complete s p hp
+      rw [h] at hc; cases hc
+  · intro h
+    cases hps : pathStatus s with
+    | nil => rfl
+    | cons c rest =>
+      have hc : c ∈ pathStatus s := by rw [hps]; simp
+      exact absurd (h c.path) (pathStatus_sound s hn c hc)
+
+/-- non-vacuity: a basis without duplicate paths and a status with all three kinds of record -/
+example :
+    let s := run .git init [.mkfile ["a"] "78", .mkfile ["b"] "78", .add ["a"], .add ["b"], .commit,
+      .write ["a"] "79", .remove ["b"] true, .mkfile ["c"] "7a", .add ["c"]]
+    (decide ((listing s.basis).map (·.1)).Nodup, pathStatus s) =
+      (true, [.modified ["a"], .removed ["b"] .file, .added ["c"] .file]) := by
+  decide +kernel
 
 end BreezyVerif.C09
